@@ -164,7 +164,7 @@ def entry_text(ctx, rep, prog, g):
     this check could not be decided."""
     from .. import entrytext
     rule = "T-ENTRY-TEXT"
-    maxlen = 7 if ctx.thorough else 6
+    maxlen = 7        # `0.0.0+0`, the shortest text with build metadata, has seven characters
     rep.rule(rule, 0, "Version::parse on every word over 8 character classes up to length %d (two dots required beyond 5): Ok "
                       "implies the loose reference language, the canonical language implies Ok" % maxlen)
     try:
@@ -197,9 +197,36 @@ def entry_text(ctx, rep, prog, g):
             if bad <= 3:
                 rep.fail(rule, "Version::parse|%s|rejects a canonical string" % rule,
                          "Version::parse(%r) fails although the text is a canonical version" % word, example=word)
+        elif st == "ok" and detail is not None and _strict.match(word) and detail != _reference_fields(word):
+            # the entry point built this Version itself (a fast path): its fields must be what the grammar yields for the text
+            bad += 1
+            if bad <= 3:
+                rep.fail(rule, "Version::parse|%s|fields differ from the grammar's" % rule,
+                         "Version::parse(%r) builds %r itself; the grammar yields %r" % (word, detail, _reference_fields(word)),
+                         example=word)
         else:
             rep.ok(rule)
     rep.analysed_item("Version::parse interpreted on %d representative texts (length <= %d), grammar answered by the extracted PEG" % (len(rows), maxlen))
+
+
+import re as _re
+
+_strict = _re.compile(r"^(0|[1-9][0-9]*)\.(0|[1-9][0-9]*)\.(0|[1-9][0-9]*)(-[0-9A-Za-z-]+(\.[0-9A-Za-z-]+)*)?(\+[0-9A-Za-z-]+(\.[0-9A-Za-z-]+)*)?$")
+
+
+def _reference_fields(word):
+    """the fields the grammar yields for a strictly canonical version text: identifiers made of digits only (that fit a
+    u64) are Numeric, all others AlphaNumeric"""
+    core, build = (word.split("+", 1) + [""])[:2] if "+" in word else (word, "")
+    nums, pre = (core.split("-", 1) + [""])[:2] if "-" in core else (core, "")
+
+    def ids(text):
+        out = []
+        for t in (text.split(".") if text else []):
+            out.append(("n", int(t)) if t.isdigit() and int(t) < (1 << 64) else ("s", t))
+        return tuple(out)
+    a, b, c = nums.split(".")
+    return (int(a), int(b), int(c), ids(pre), ids(build))
 
 
 def entry_consumes_all(prog):
